@@ -323,9 +323,14 @@ fn known_class(opts: u32, input: &[u8], v: Verdict, in_child: bool, msg: &str) -
         Verdict::Panic if in_child && has_long_number(input) && msg.contains("capacity overflow") => Some("alloc"),
         Verdict::Abort if in_child && has_long_number(input) && msg.contains("memory allocation of") => Some("alloc"),
         // recursion depth = nesting depth of the input
-        Verdict::Abort if in_child && deeply_nested(input) && msg.contains("overflowed its stack") => Some("deep-nesting"),
+        // (the Rust runtime prints "has overflowed its stack" only when the faulting address lies in
+        // the guard range it computed for the thread; for the main thread of the child that range
+        // depends on the stack's random placement and on the size of the environment, so a stack
+        // exhaustion occasionally surfaces as a plain SIGSEGV without the message — seen once in a
+        // dry run on a fresh sandbox; the parsers contain no `unsafe` code that could fault otherwise)
+        Verdict::Abort if in_child && deeply_nested(input) && (msg.contains("overflowed its stack") || msg.contains("SIGSEGV")) => Some("deep-nesting"),
         // recursion depth = length of a chain of gates (Circuit::find_cycle recurses per gate)
-        Verdict::Abort if in_child && msg.contains("overflowed its stack") && input.iter().filter(|&&b| b == b'\n').count() > 50000 => Some("deep-chain"),
+        Verdict::Abort if in_child && (msg.contains("overflowed its stack") || msg.contains("SIGSEGV")) && input.iter().filter(|&&b| b == b'\n').count() > 50000 => Some("deep-chain"),
         // `max_clause.1 != num_clauses.1 - 1` with a clause tree and `p cnf <n> 0`
         Verdict::Panic
             if !msg.starts_with("load_file:")
